@@ -202,7 +202,7 @@ class SiteEvaluator:
         import os, pickle, hashlib
         here = os.path.dirname(os.path.abspath(__file__))
         h = hashlib.sha256()
-        for fn in ('sites.py', 'kindflow.py', 'grammar.py', 'cfg.py', 'paths.py', 'prov.py', 'mirfacts.py', 'effects.py',
+        for fn in ('sites.py', 'kindflow.py', 'grammar.py', 'cfg.py', 'paths.py', 'prov.py', 'mirfacts.py', 'effects.py', 'inline.py', 'world.py',
                    '../tables/typst_syntax_0.13.1.json'):
             h.update(open(os.path.join(here, fn), 'rb').read())
         cache = os.path.join(self.w.facts_dir, 'sites-%s.pickle' % h.hexdigest()[:16])
